@@ -313,10 +313,14 @@ def method_tables(ctx) -> List[Tuple[str, Func, Set[str], Set[str], int]]:
                             if m.lineno < n.lineno:
                                 listed = {const_str(e) for e in m.value.elts}
             keys: Set[str] = set()
-            for m in fac.own_nodes():
-                if isinstance(m, ast.Assign) and norm(m.targets[0]) == "methods" and isinstance(m.value, ast.Dict):
-                    keys = {const_str(k) for k in m.value.keys}
-            out.append((fac.name.replace("_make_", "").replace("_method", ""), fac, listed, keys, n.lineno))
+            fam_name = fac.name.replace("_make_", "").replace("_method", "")
+            holders = [fac] + [h for c in fac.own_nodes() if isinstance(c, ast.Call) and isinstance(c.func, ast.Attribute) and norm(c.func.value) == "self" for h in [t.find_method(gp.cls, c.func.attr)] if h is not None and not isinstance(h.node, ast.Lambda)]
+            for h in holders:
+                for m in h.own_nodes():
+                    if isinstance(m, ast.Assign) and norm(m.targets[0]) == "methods" and isinstance(m.value, ast.Dict) and not keys:
+                        keys = {const_str(k) for k in m.value.keys}
+                        fac = h  # the function that defines the natives (the table may be built by a helper of the entry)
+            out.append((fam_name, fac, listed, keys, n.lineno))
     return out
 
 
